@@ -56,10 +56,17 @@ def _rules(mod):
     """The property's rules: the robust shared rules first (run_extra: they need no property-specific anchor, so their verdicts
     stand even when a later rule stops the analysis), then the module's own."""
     def both(ctx):
+        from .model import AnchorMissing, Inconclusive
         extra = getattr(mod, "run_extra", None)
+        pending = None
         if extra is not None:
-            extra(ctx)
+            try:
+                extra(ctx)
+            except (AnchorMissing, Inconclusive) as e:
+                pending = e          # an undecided shared rule does not keep the property's own rules from being evaluated
         mod.run(ctx)
+        if pending is not None:
+            raise pending
     return both
 
 
